@@ -10,7 +10,15 @@ use std::collections::HashSet;
 use std::sync::atomic::{AtomicU64, Ordering};
 use std::sync::Mutex;
 
+#[derive(Default, Clone)]
+struct Pop {
+    judged_member_order: u64,
+    in_member_order: u64,
+    judged_decoys_last: u64,
+    decoys_last: u64,
+}
 struct OrderStats {
+    pops: Mutex<std::collections::BTreeMap<String, Pop>>,
     lists: AtomicU64,
     unsorted: AtomicU64,
     judged_member_order: AtomicU64, // lists with >= 2 real digests
@@ -26,6 +34,13 @@ fn issue_and_collect(u: &Value, strat: &Strat, cfg: &Cfg, st: &OrderStats, l: &m
     let Some(cred) = pipeline::issue_checked(u, strat, cfg, Checks { c12: true, ..Default::default() }, "C12", l) else { return };
     let mut any_decoy = false;
     let mut local_digests = vec![];
+    let strat_kind = match strat {
+        Strat::NoSd => "nosd",
+        Strat::Top => "top",
+        Strat::All => "all",
+        Strat::Custom(_) => "custom",
+    };
+    let mut local_pops: Vec<(String, bool, Option<bool>)> = vec![];
     for o in &cred.an.objects {
         if o.sd.is_empty() {
             continue;
@@ -40,17 +55,48 @@ fn issue_and_collect(u: &Value, strat: &Strat, cfg: &Cfg, st: &OrderStats, l: &m
         if reals.len() >= 2 {
             st.judged_member_order.fetch_add(1, Ordering::Relaxed);
             // member order of U at this object
+            let mut in_order = false;
             if let Some(Value::Object(m)) = refmodel::get(&cred.u, &o.path) {
                 let order: Vec<&String> = m.keys().filter(|k| reals.contains(k)).collect();
                 if order == reals {
                     st.in_member_order.fetch_add(1, Ordering::Relaxed);
+                    in_order = true;
                 }
             }
+            let mut dlast = None;
             if ndec > 0 {
                 st.judged_decoys_last.fetch_add(1, Ordering::Relaxed);
                 let first_decoy = o.matched.iter().position(|m| !*m).unwrap();
-                if o.matched[first_decoy..].iter().all(|m| !*m) {
+                let all_last = o.matched[first_decoy..].iter().all(|m| !*m);
+                if all_last {
                     st.decoys_last.fetch_add(1, Ordering::Relaxed);
+                }
+                dlast = Some(all_last);
+            }
+            // the property's rule is evaluated on every identifiable sub-population as well
+            for key in [
+                format!("decoys={}", cfg.decoys),
+                format!("decoys={},strategy={}", cfg.decoys, strat_kind),
+                format!("decoys={},in_disclosure={}", cfg.decoys, o.in_disclosure),
+                format!("decoys={},depth={}", cfg.decoys, o.path.len().min(2)),
+                format!("decoys={},fmt={},cnf={}", cfg.decoys, cfg.fmt.name(), cfg.hk != Hk::None),
+            ] {
+                local_pops.push((key, in_order, dlast));
+            }
+        }
+    }
+    if !local_pops.is_empty() {
+        let mut g = st.pops.lock().unwrap();
+        for (k, in_order, dlast) in local_pops {
+            let p = g.entry(k).or_default();
+            p.judged_member_order += 1;
+            if in_order {
+                p.in_member_order += 1;
+            }
+            if let Some(dl) = dlast {
+                p.judged_decoys_last += 1;
+                if dl {
+                    p.decoys_last += 1;
                 }
             }
         }
@@ -88,6 +134,7 @@ pub fn run(rep: &Report) {
     rep.assume("jsonwebtoken/ring/serde_json/base64/sha2 are correct");
     let quick = rep.quick();
     let st = OrderStats {
+        pops: Mutex::new(Default::default()),
         lists: AtomicU64::new(0),
         unsorted: AtomicU64::new(0),
         judged_member_order: AtomicU64::new(0),
@@ -157,12 +204,21 @@ pub fn run(rep: &Report) {
     if unsorted > 0 {
         let mut l = Local::default();
         let case = json!({"kind": "c12_order", "prop": "C12"});
-        if jm >= 200 && im == jm {
-            l.violation(Violation::new("issue", "order_leak", "c12_member_order", "-", format!("all {jm} _sd lists with >=2 real digests list them in member order"), case.clone()));
+        let pops = st.pops.lock().unwrap().clone();
+        let mut leaks = vec![];
+        for (k, p) in &pops {
+            if p.judged_member_order >= 200 && p.in_member_order == p.judged_member_order {
+                leaks.push(format!("population [{k}]: all {} _sd lists with >=2 real digests list them in member order", p.judged_member_order));
+            }
+            if p.judged_decoys_last >= 200 && p.decoys_last == p.judged_decoys_last {
+                leaks.push(format!("population [{k}]: all {} _sd lists with >=2 real digests and a decoy list the decoys last", p.judged_decoys_last));
+            }
         }
-        if jd >= 200 && dl == jd {
-            l.violation(Violation::new("issue", "order_leak", "c12_decoys_last", "-", format!("all {jd} _sd lists with >=2 real digests and a decoy list the decoys last"), case));
+        if let Some(first) = leaks.first() {
+            let site = if first.contains("member order") { "c12_member_order" } else { "c12_decoys_last" };
+            l.violation(Violation::new("issue", "order_leak", site, "-", leaks.join("; "), case));
         }
+        rep.set_extra("order_clause_populations", json!(pops.iter().map(|(k, p)| (k.clone(), json!([p.judged_member_order, p.in_member_order, p.judged_decoys_last, p.decoys_last]))).collect::<serde_json::Map<_, _>>()));
         rep.merge(l);
     }
     if jm < 200 {
@@ -174,35 +230,37 @@ pub fn run(rep: &Report) {
 pub fn replay_order() -> Vec<Violation> {
     let mut l = Local::default();
     let u = json!({"iss": crate::gen::ISS, "exp": crate::gen::EXP, "a": 1, "b": 2, "c": 3});
-    let cfg = Cfg { fmt: Fmt::Compact, alg: Alg::HS256, decoys: true, hk: Hk::None };
-    let (mut jm, mut im, mut jd, mut dl, mut unsorted) = (0, 0, 0, 0, 0);
-    for _ in 0..400 {
-        let Some(cred) = pipeline::issue_checked(&u, &Strat::Top, &cfg, Checks::default(), "C12", &mut l) else { continue };
-        for o in &cred.an.objects {
-            if o.sd.windows(2).any(|w| w[0] > w[1]) {
-                unsorted += 1;
-            }
-            let reals: Vec<&String> = o.names.iter().flatten().collect();
-            if reals.len() >= 2 {
-                jm += 1;
-                if reals.iter().map(|s| s.as_str()).collect::<Vec<_>>() == ["a", "b", "c"] {
-                    im += 1;
+    let case = json!({"kind": "c12_order", "prop": "C12"});
+    for decoys in [true, false] {
+        let cfg = Cfg { fmt: Fmt::Compact, alg: Alg::HS256, decoys, hk: Hk::None };
+        let (mut jm, mut im, mut jd, mut dl, mut unsorted) = (0, 0, 0, 0, 0);
+        for _ in 0..400 {
+            let Some(cred) = pipeline::issue_checked(&u, &Strat::Top, &cfg, Checks::default(), "C12", &mut l) else { continue };
+            for o in &cred.an.objects {
+                if o.sd.windows(2).any(|w| w[0] > w[1]) {
+                    unsorted += 1;
                 }
-                if let Some(fd) = o.matched.iter().position(|m| !*m) {
-                    jd += 1;
-                    if o.matched[fd..].iter().all(|m| !*m) {
-                        dl += 1;
+                let reals: Vec<&String> = o.names.iter().flatten().collect();
+                if reals.len() >= 2 {
+                    jm += 1;
+                    if reals.iter().map(|s| s.as_str()).collect::<Vec<_>>() == ["a", "b", "c"] {
+                        im += 1;
+                    }
+                    if let Some(fd) = o.matched.iter().position(|m| !*m) {
+                        jd += 1;
+                        if o.matched[fd..].iter().all(|m| !*m) {
+                            dl += 1;
+                        }
                     }
                 }
             }
         }
-    }
-    let case = json!({"kind": "c12_order", "prop": "C12"});
-    if unsorted > 0 && jm >= 200 && im == jm {
-        l.violation(Violation::new("issue", "order_leak", "c12_member_order", "-", format!("all {jm} lists in member order"), case.clone()));
-    }
-    if unsorted > 0 && jd >= 200 && dl == jd {
-        l.violation(Violation::new("issue", "order_leak", "c12_decoys_last", "-", format!("all {jd} lists decoys last"), case));
+        if unsorted > 0 && jm >= 200 && im == jm {
+            l.violation(Violation::new("issue", "order_leak", "c12_member_order", "-", format!("decoys={decoys}: all {jm} lists in member order"), case.clone()));
+        }
+        if unsorted > 0 && jd >= 200 && dl == jd {
+            l.violation(Violation::new("issue", "order_leak", "c12_decoys_last", "-", format!("decoys={decoys}: all {jd} lists decoys last"), case.clone()));
+        }
     }
     l.violations()
 }
